@@ -96,13 +96,13 @@ CHECKS["C13"] = dict(
     design="5 C13", technique="Coq proof (sortedness invariant + exactness of the range scan) + differential correspondence + fresh-scan oracle",
     note=WORLD_NOTE)
 CHECKS["C16"] = dict(
-    text="Theorems (Props/C16.v, 52) for reachable states: each of the ten set methods yields the Python set result (KeyError exactly when the built-in raises); every module-list method yields the list "
+    text="Theorems (Props/C16.v, 58) for reachable states: each of the ten set methods yields the Python set result (KeyError exactly when the built-in raises); every module-list method yields the list "
          "result -- a module that the list already holds is moved to where the built-in puts it, one that another IR holds leaves that IR -- (ValueError/IndexError exactly when the built-in raises); the expression map refines dict with iteration by offset; moved-not-duplicated, also for item / slice assignment of a module the list already holds or one named twice (C16_same_list_assignment_moves: kept at the last position assigned, the others keep their order); "
          "a failed operation leaves the state (and the invariant) unchanged; the read-only sequence interface (index with bounds, count, in, [i], [a:b:c], reversed) of the module list is "
          "Python's (Model/SeqOps.v: first position inside the clamped bounds, IndexError exactly outside [-len, len), slice positions s, s+c, ... as slice.indices gives them); the non-mutating set operators and comparisons inherited from collections.abc.Set (Model/SetAlg.v) are the mathematical ones on duplicate-free member lists. Correspondence + lock-step shadows: every call also made on built-in list/set/dict, incl. mixins, operators with plain sets on either "
          "side, explicit-step slices, foreign-kind and non-node arguments, out-of-range indices.",
     design="5 C16", technique="Coq proof (refinement of built-in semantics by effect lemmas) + differential correspondence + built-in shadow oracle",
-    note=WORLD_NOTE + "Non-mutating operators return plain sets since the upstream fix 12e88c6; their values are modelled by Model/SetAlg.v (the Set mixins), the result TYPE is judged by the shadow oracle only. Same-list item/slice assignment (the former finding D4, repaired by fix 9a22f6d) is modelled by ml_assign / assign_slice and stated as C16_same_list_assignment_moves; extended-slice assignment (l[a:b:c] = vs, c other than 1) is the operation OModSetExt (assign_ext on the positions slice.indices gives; C16_modlist_setslice_extended: ValueError exactly for step 0 and for a size mismatch, with nothing touched; otherwise no duplicate, ownership consistent, and the built-in list's result -- read back by l[a:b:c] -- exactly when the values are distinct and none stays at an unassigned position).")
+    note=WORLD_NOTE + "Non-mutating operators return plain sets since the upstream fix 12e88c6; their values are modelled by Model/SetAlg.v (the Set mixins), the result TYPE is judged by the shadow oracle only. Same-list item/slice assignment (the former finding D4, repaired by fix 9a22f6d) is modelled by ml_assign / assign_slice and stated as C16_same_list_assignment_moves; extended-slice assignment (l[a:b:c] = vs, c other than 1) is the operation OModSetExt (assign_ext on the positions slice.indices gives; C16_modlist_setslice_extended: ValueError exactly for step 0 and for a size mismatch, with nothing touched; otherwise no duplicate, ownership consistent, and the built-in list's result -- read back by l[a:b:c] -- exactly when the values are distinct and none stays at an unassigned position). Deletion of an extended slice (del l[a:b:c], any step) is Model/DelExt.v -- the positions of slice.indices / range deleted from the highest down, each through the guarded single deletion, so every intermediate state is a reachable one -- and C16_modlist_delslice_extended (+ _members, _list, _step_zero, _step_one, _reverse_all, _example): the list afterwards is the built-in's (the elements at unselected positions, in their order), exactly the selected modules are detached, ValueError for step 0, step 1 coincides with the ordinary slice deletion. World histories also construct nodes WITH their parent (item 51 = new + attach, decoded by the glue) and attempt magnitudes of 2^64 and beyond for block sizes / offsets (taken, or refused with nothing changed: item 53).")
 CHECKS["C11"] = dict(
     text="Theorems (Props/C11.v, 22) over Model/Cfg.v (cfg.py as coded: _edge_key, guarded add, keyed discard, the MutableSet mixins transcribed from CPython): every state reachable by any "
          "sequence of operations is a duplicate-free set of (source, target, label) triples; each operation is exactly the mathematical set operation and fails exactly when the built-in set would; "
